@@ -63,6 +63,11 @@ def run(R):
                 ev.append({"op": ("encrypt", "encrypt_mut")[(i + mut) % 2], "x": 1, "data": pt[pos:pos + d]}); pos += d
             ev.append({"op": "finalize", "x": 1})
             enc.append({"id": R.next_id(), "cls": "aead", "rounds": rounds, "key": key, "nonce": nonce, "ev": ev})
+        # a clone taken after the first data piece (mid keystream block, MAC bytes staged): both copies are fed the rest and finalised
+        if len(dparts) >= 2 and dparts[0] % 64:
+            ev = [{"op": "new"}] + [{"op": "add_data", "x": 1, "data": aad}] + [{"op": "to_encryption", "x": 1}, {"op": "encrypt", "x": 1, "data": pt[:dparts[0]]}, {"op": "clone", "x": 1, "y": 2},
+                  {"op": "encrypt_mut", "x": 2, "data": pt[dparts[0]:]}, {"op": "finalize", "x": 2}, {"op": "encrypt", "x": 1, "data": pt[dparts[0]:]}, {"op": "finalize", "x": 1}]
+            enc.append({"id": R.next_id(), "cls": "aead", "rounds": rounds, "key": key, "nonce": nonce, "ev": ev})
         h1 = ac.one_history(R, rounds, key, nonce, aad, pt, "enc")
         enc.append(h1)
         meta[h1["id"]] = (rounds, key, nonce, aad, pt)
